@@ -281,20 +281,8 @@ def main():
         print("tool failure in proof step")
         return 2
 
-    # ---- 3. correspond
     failures = []
-    res = {"evaluations": 0, "nontrivial": set(), "samples": [], "distribution": {}}
-    try:
-        if os.path.exists(C.DRIVER):
-            res = mod.correspond(ctx)
-            failures = list(res.get("failures", []))
-        else:
-            broken.append("no model driver binary")
-    except Exception:
-        C.eprint(traceback.format_exc())
-        broken.append("correspondence run crashed: " + traceback.format_exc().splitlines()[-1])
-
-    # ---- 3b. corpus: concrete inputs on which the property failed under a past (seeded or
+    # ---- 3a. corpus (runs first, in a clean session): concrete inputs on which the property failed under a past (seeded or
     # genuine) defect; each is re-executed on the current tree through the module's replay()
     corpus_dir = os.path.join(C.ROOT, "corpus", pid)
     corpus_n = 0
@@ -320,6 +308,18 @@ def main():
                 broken.append("corpus case {} could not be replayed: {}".format(
                     fn, traceback.format_exc().splitlines()[-1]))
     ctx.notes.append("corpus cases replayed: {}".format(corpus_n))
+
+    # ---- 3. correspond
+    res = {"evaluations": 0, "nontrivial": set(), "samples": [], "distribution": {}}
+    try:
+        if os.path.exists(C.DRIVER):
+            res = mod.correspond(ctx)
+            failures += list(res.get("failures", []))
+        else:
+            broken.append("no model driver binary")
+    except Exception:
+        C.eprint(traceback.format_exc())
+        broken.append("correspondence run crashed: " + traceback.format_exc().splitlines()[-1])
 
     # ---- 4. decide
     # "implementation output = model output" accuses the code only while the model is proved
